@@ -287,6 +287,33 @@ def logical(s, with_len=None):
 
 
 # ------------------------------------------------------------------------------------------
+HASH_SIZES = [1, 2, 7, 64, 1024]
+
+
+def gen_hints(rng):
+    """one MPI_Info / environment setting for ncmpi_open: a random subset of the hints that must not
+    change what is read (hash table sizes in unequal combinations, header read chunk, alignments,
+    collective header read, intra-node aggregation, safe mode)"""
+    h = []
+    hs = rng.shuffle(HASH_SIZES)
+    for i, key in enumerate(['nc_hash_size_dim', 'nc_hash_size_var', 'nc_hash_size_gattr', 'nc_hash_size_vattr']):
+        if rng.chance(2, 3):
+            h.append('%s=%d' % (key, hs[i]))          # distinct values for the four tables
+    if rng.chance(1, 2):
+        h.append('nc_header_read_chunk_size=%d' % rng.choice([1, 36, 64, 100, 4096, 1048576]))
+    if rng.chance(1, 3):
+        h.append('nc_header_align_size=%d' % rng.choice([1, 4, 512, 1000]))
+    if rng.chance(1, 3):
+        h.append('nc_var_align_size=%d' % rng.choice([1, 4, 512, 1000]))
+    if rng.chance(1, 3):
+        h.append('romio_no_indep_rw=true')
+    if rng.chance(1, 3):
+        h.append('nc_num_aggrs_per_node=%d' % rng.choice([1, 2]))
+    if rng.chance(1, 2):
+        h.append('PNETCDF_SAFE_MODE=%d' % rng.below(2))
+    return ' '.join(h)
+
+
 def lean_batch(drv, lines):
     p = subprocess.run([drv], input='\n'.join(lines) + '\n', stdout=subprocess.PIPE, stderr=subprocess.PIPE, text=True)
     out = p.stdout.split('\n')
@@ -402,6 +429,22 @@ def run_check(tier, seed):
             return V.finish()
         V.cov['tree_variant'] = 'FB2-1 repaired' if fixed_variant else 'FB2-1 present'
         variant_line = 'VARIANT %d' % (1 if fixed_variant else 0)
+        # repairs of the C19 findings the tree may carry (Model/Safety.lean §5/§6, Props.C19 variant_conservative /
+        # variant_chunk_independent): int63 = a CDF-5 dimension length of 2^63+3 is refused; eof = the 8-byte file
+        # "CDF1"+numrecs is refused instead of being read as an empty dataset
+        p63, peof = os.path.join(wd, 'probe63.nc'), os.path.join(wd, 'probe_eof.nc')
+        open(p63, 'wb').write(b'CDF\x05' + bytes(8) + (10).to_bytes(4, 'big') + (1).to_bytes(8, 'big') + (1).to_bytes(8, 'big') + b'x\0\0\0' +
+                              ((1 << 63) + 3).to_bytes(8, 'big') + bytes(24))
+        open(peof, 'wb').write(b'CDF\x01' + bytes(4))
+        ro, _n = run_harness(unit, 1, ['%s 36 0' % p63, '%s 36 0' % peof], wd, 'repairs')
+        try:
+            r63, reof = ro[0][0].split()[0], ro[0][1].split()[0]
+            assert r63 in ('OK', 'ERR') and reof in ('OK', 'ERR')
+        except Exception:
+            V.broken_tie('harness c04_unit failed on the repairs probe', str(ro)[:600])
+            return V.finish()
+        V.cov['tree_repairs'] = dict(int63=(r63 == 'ERR'), eof=(reof == 'ERR'))
+        repairs_line = 'REPAIRS %d %d' % (1 if r63 == 'ERR' else 0, 1 if reof == 'ERR' else 0)
         nvalid = 250 if tier == 'quick' else 8000
         cases = []          # dict(kind, schema|None, path, bytes, tags, chunks)
         schemas = []
@@ -553,7 +596,7 @@ def run_check(tier, seed):
             lines.append('DEC W'); idx.append((ci, 'W'))
             if c['kind'] == 'valid':
                 lines.append('SPEC'); idx.append((ci, 'S'))
-        lo = lean_batch(drv, [variant_line] + lines)[1:]
+        lo = lean_batch(drv, [variant_line, repairs_line] + lines)[2:]
         lean = {k: v for k, v in zip(idx, lo)}
         log('[S4] Lean model: %d decode requests in %.1fs' % (len(lines), t1.s()))
         # ---- C unit harness
@@ -562,19 +605,28 @@ def run_check(tier, seed):
         ranks = [1, 2] if tier == 'quick' else [1, 2, 4]
         unit_out, notes = {}, []
         for n in ranks:
-            unit_out[n], note = run_harness(unit, n, ['%s %d %d' % (cases[ci]['path'], ch, (ci + ch) % 2) for ci, ch in unit_reqs], wd, 'unit%d' % n)
+            unit_out[n], note = run_harness(unit, n, ['%s %d %d %d' % (cases[ci]['path'], ch, (ci + ch) % 2, 1 if (ci * 7 + ch // 4) % 3 == 0 else 0)
+                                                      for ci, ch in unit_reqs], wd, 'unit%d' % n)
             if note:
                 notes.append('c04_unit ranks=%d: %s' % (n, note))
         log('[S4] C unit harness: %d requests x ranks %s in %.1fs' % (len(unit_reqs), ranks, t1.s()))
         # ---- public API harness (valid files only)
         t1 = Timer()
         valid = [ci for ci, c in enumerate(cases) if c['kind'] == 'valid']
+        # every valid file is opened without hints and under several random hint settings
+        nset = 3 if tier == 'quick' else 6
+        api_reqs, hint_dist = [], {}
+        for ci in valid:
+            for hs_ in [''] + [gen_hints(rng) for _ in range(nset)]:
+                api_reqs.append((ci, hs_))
+                for kv in (hs_.split() or ['(no hints)']):
+                    hint_dist[kv] = hint_dist.get(kv, 0) + 1
         api_out = {}
         for n in ranks:
-            api_out[n], note = run_harness(api, n, [cases[ci]['path'] for ci in valid], wd, 'api%d' % n)
+            api_out[n], note = run_harness(api, n, [(cases[ci]['path'] + ' ' + hs_).strip() for ci, hs_ in api_reqs], wd, 'api%d' % n)
             if note:
                 notes.append('c04_api ranks=%d: %s' % (n, note))
-        log('[S4] public API harness: %d files x ranks %s in %.1fs' % (len(valid), ranks, t1.s()))
+        log('[S4] public API harness: %d opens (%d files x %d hint settings) x ranks %s in %.1fs' % (len(api_reqs), len(valid), nset + 1, ranks, t1.s()))
         if notes:
             log('[S4] harness restarts:', notes[:4])
         V.cov['harness_restarts'] = notes[:10]
@@ -616,25 +668,32 @@ def run_check(tier, seed):
             exp_spec = 'OK ' + ' '.join(schema_tokens(s)) + ' | true'
             if sp != exp_spec:
                 tie_diffs.append(dict(stream='spec-decoder', file=c['path'], spec=sp[:600], expected=exp_spec[:600]))
+        for ai, (ci, hs_) in enumerate(api_reqs):
+            c = cases[ci]
+            s = c['schema']
             for n in ranks:
                 for r in range(n):
                     evals += 1
-                    got = api_out[n][r][vi]
+                    got = api_out[n][r][ai]
                     why = api_mismatch(got, s, c['data'])
                     if why:
-                        prop_fail.append(('api:ranks=%d:rank=%d:%s' % (n, r, why), c, got, None))
+                        prop_fail.append(('api:ranks=%d:rank=%d:%s:hints=%s' % (n, r, why, hs_ or '-'), c, got, None))
         V.cov['evaluations'] = evals
         V.cov['distinct_nontrivial'] = len(distinct)
         V.cov['traces_validated_against_impl'] = evals - len(tie_diffs)
         V.cov['rule'] = ('case = (file, read chunk size); valid files come from random schemas (names incl. UTF-8 and up to 256 bytes, every attribute '
                          'type, zero-length and multi-chunk attributes, fixed + record variables, CDF-1/2/5) laid out by the harness with gaps, unaligned '
                          'begins, stale/saturated vsize and trailing bytes, encoded by the Lean specification encoder; each is read by ncmpio_hdr_get_NC with '
-                         'several chunk sizes on 1..n ranks and through the public API; derived truncated, tag/magic-damaged and semantically invalid files '
+                         'several chunk sizes on 1..n ranks (safe mode and collective header read varied) and through the public API under several MPI_Info settings (hash table sizes in '
+                         'unequal combinations, header read chunk, alignments, romio_no_indep_rw, nc_num_aggrs_per_node, PNETCDF_SAFE_MODE) with every by-id and by-name inquiry '
+                         'and all data compared; derived truncated, tag/magic-damaged and semantically invalid files '
                          'are compared model-vs-implementation only. non-trivial = header spans more than one read chunk, or the file carries an exotic/invalid '
                          'feature tag; distinct = distinct (sha1(file), chunk)')
         V.cov['distribution'] = dist
         V.cov['files'] = dict(valid=len(valid), derived_malformed=nmal, semantic_invalid=len(sem2), corpus=ncorpus)
         V.cov['ranks'] = ranks
+        V.cov['open_hint_settings'] = dict(opens=len(api_reqs), per_file=nset + 1, distribution=hint_dist,
+                                           unit_reader='chunk x safe_mode x NC_HCOLL (collective header read) vary per request')
         V.cov['samples'] = [dict(kind=c['kind'], chunk=c['chunks'][0], file_hex=hx(c['data'])[:400], model=lean[(i, c['chunks'][0])][:300])
                             for i, c in list(enumerate(cases))[1:len(cases):max(1, len(cases) // 4)]][:5]
         # ---- S5
@@ -775,8 +834,11 @@ def same_unit(got, exp):
 def api_mismatch(got, s, data):
     """None if the public-API dump equals what was encoded, else a short reason"""
     t = got.split()
-    if not t or t[0] != 'OK' or 'APIERR' in t:
-        return 'open-or-inquiry-failed'
+    if 'APIERR' in t:
+        k = t.index('APIERR')
+        return 'inquiry-failed(%s)' % '/'.join(t[k + 1:k + 3])
+    if not t or t[0] != 'OK':
+        return 'open-failed(%s)' % ' '.join(t[:2])
     try:
         k1 = t.index('|')
         k2 = t.index('|', k1 + 1)
@@ -845,7 +907,12 @@ def replay_file(path):
                         bad += 0 if same else 1
                         log('  chunk %-6d ranks %d rank %d: %s' % (ch, n, rnk, 'model = implementation' if same else
                                                                  'DIFFER impl=%s model=%s' % (outs[rnk][i][:300], lean[1 + i][:300])))
-            outs, note = run_harness(api, 1, [fpath], wd, 'ra')
+            hints = ''
+            if isinstance(r, dict) and 'hints=' in str(r.get('how', '')):
+                hints = str(r['how']).split('hints=', 1)[1]
+                hints = '' if hints == '-' else hints
+            outs, note = run_harness(api, 1, [(fpath + ' ' + hints).strip()], wd, 'ra')
+            log('  hints: ' + (hints or '(none)'))
             log('  public API: ' + outs[0][0][:400])
             if schema:
                 s, _ = parse_schema(schema.split())
